@@ -140,6 +140,11 @@ func (s *State) load(loc *Loc, where string) Val {
 }
 
 func (s *State) storeTo(loc *Loc, v Val, where string) {
+	if v.Shared && (loc.Cell == nil || len(loc.Path) > 0) {
+		// the Shared mark lives on the value held by a local variable; once the slice sits in a field or behind a pointer the
+		// mark is lost and a later append would be verified as if it could not touch the slice it was cut from
+		s.unsupported("a re-sliced slice is stored in a field or behind a pointer at %s: it shares its backing array with the slice it was cut from (backing-array aliasing is not modelled)", where)
+	}
 	if loc.Det != nil && loc.Cell == nil && loc.Ref == "" {
 		s.unsupported("element store into a slice that is not held in a local variable or field at %s", where)
 	}
